@@ -1413,6 +1413,201 @@ def exec_case(case):
     return recs, orc
 
 
+# ------------------------------------------------------------------ active handlers (C14: Client ≡ AsyncClient)
+
+ACT_NS = ['/', '/a', '/b']
+
+
+def gen_act(rng, nss, ev):
+    """what a handler does when it is invoked: look at the client (always), and possibly one API call"""
+    r = rng.random()
+    api = None if r < 0.15 else 'emit' if r < 0.55 else 'send' if r < 0.7 else 'disconnect'
+    if ev == 'event' and api == 'disconnect' and rng.random() < 0.5:
+        api = 'emit'
+    r = rng.random()
+    others = [n for n in nss if True]
+    target = 'own' if r < 0.55 else rng.choice(others) if r < 0.9 else '/zz'
+    return {'api': api, 'target': target, 'reraise': rng.random() < 0.3, 'max': rng.choice([1, 2, 2])}
+
+
+def gen_active_registry(rng, nss):
+    """exact-namespace handlers only (function or class-based per namespace); connect / disconnect /
+    connect_error / 'msg' handlers act with probability 0.75; `__disconnect_final` is observed by a passive
+    function handler (it is what SimpleClient registers)"""
+    fns, classes = [], []
+    for ns in nss:
+        cls = rng.random() < 0.4
+        hs = []
+        for ev in ('connect', 'disconnect', 'connect_error', 'msg'):
+            h = dict(ev=ev, coro=rng.random() < 0.6, susp=False, legacy=False, ret=('none',) if ev != 'msg' else ('one', 'r'))
+            if rng.random() < 0.75:
+                h['act'] = gen_act(rng, nss, 'event' if ev == 'msg' else ev)
+            hs.append(h)
+        if cls:
+            classes.append(dict(ns=ns, methods=hs))
+        else:
+            fns += [dict(ns=ns, **h) for h in hs]
+        if not cls or rng.random() < 0.5:
+            fns.append(dict(ns=ns, ev='__disconnect_final', coro=rng.random() < 0.5, susp=False, legacy=False,
+                            ret=('none',)))
+    return {'fns': fns, 'classes': classes}
+
+
+def gen_active_case(rng):
+    """A short life of a client whose handlers are active.  The peer is scripted from the plan alone (what
+    the handlers do is not fed back): frames for a transport the client has meanwhile closed deliver nothing.
+    -> (case, tags)"""
+    nss = rng.sample(ACT_NS, rng.choice([1, 2, 2, 3, 3]))
+    reg = gen_active_registry(rng, nss)
+    ops, tags = [], []
+    nsid = [0]
+
+    def sid():
+        nsid[0] += 1
+        return 'S%d' % nsid[0]
+
+    for round_ in range(rng.choice([1, 1, 2])):
+        r = rng.random()
+        wait = rng.random() < 0.7
+        live = list(nss)
+        auth = {'val': None, 'callable': False, 'coro': False}
+        if r < 0.12:
+            a = rng.choice([['Connection refused by the server'],
+                            ['Unexpected status code 401 in server response', {'message': 'denied'}]])
+            ops.append({'op': 'connect', 'nss': list(nss), 'auth': auth, 'wait': wait, 'outcome': ('refuse', a),
+                        'reacts': [], 'window': 'refused', 'default': False})
+            tags.append('connect.transport_refused')
+            continue
+        answers = []
+        refused = []
+        if r < 0.35 and len(nss) >= 2:
+            refused = rng.sample(nss, rng.randint(1, len(nss) - 1))
+            if not wait and '/' in refused:
+                refused = [n for n in refused if n != '/'] or [n for n in nss if n != '/'][:1]   # F9 is C08's
+            tags.append('connect.namespace_refused.' + ('wait' if wait else 'nowait'))
+        elif r < 0.42:
+            refused = list(nss)
+            if not wait:
+                refused = [n for n in refused if n != '/']
+            tags.append('connect.all_refused')
+        else:
+            tags.append('connect.accepted')
+        for n in nss:
+            if n in refused:
+                answers += srv_frames(CONNECT_ERROR, rng.choice(['no', {'message': 'denied'}, None]), n)
+            else:
+                answers += srv_frames(CONNECT, {'sid': sid()}, n)
+        live = [n for n in nss if n not in refused]
+        ops.append({'op': 'connect', 'nss': list(nss), 'auth': auth, 'wait': wait, 'outcome': ('accept', 'E%d' % round_),
+                    'reacts': [[] for _ in nss[:-1]] + [answers], 'window': 'all', 'default': False})
+        if (wait and refused) or not live:
+            if not live and not wait:
+                ops.append({'op': 'disconnect'})
+            continue
+        for _ in range(rng.randint(0, 3)):
+            q = rng.random()
+            if q < 0.4:
+                n = rng.choice(live)
+                for e in srv_frames(EVENT, ['msg', rng.randint(0, 9)], n, rng.choice([None, None, 3])):
+                    ops.append({'op': 'ev', 'e': e})
+                tags.append('event')
+            elif q < 0.75 and len(live) >= 2:
+                n = rng.choice(live)
+                live.remove(n)
+                for e in srv_frames(DISCONNECT, None, n):
+                    ops.append({'op': 'ev', 'e': e})
+                tags.append('server_disconnect.one_of_several')
+            else:
+                n = rng.choice(live + ['/zz'])
+                ops.append({'op': 'emit', 'ev': 'x', 'data': 'd', 'ns': n, 'cb': None, 'reacts': []})
+        q = rng.random()
+        if q < 0.35:
+            for n in list(live):
+                for e in srv_frames(DISCONNECT, None, n):
+                    ops.append({'op': 'ev', 'e': e})
+            tags.append('server_disconnect.last' if len(live) == 1 else 'server_disconnect.all_one_by_one')
+        elif q < 0.6:
+            ops.append({'op': 'ev', 'e': ('lost',)})
+            tags.append('transport_lost')
+        elif q < 0.7:
+            ops.append({'op': 'ev', 'e': ('close',)})
+            tags.append('server_close')
+        else:
+            ops.append({'op': 'disconnect'})
+            tags.append('client_disconnect')
+        # afterwards: the API on a client that is down
+        if rng.random() < 0.3:
+            ops.append({'op': 'emit', 'ev': 'x', 'data': None, 'ns': rng.choice(nss), 'cb': None, 'reacts': []})
+    return {'mode': 'threading', 'registry': reg, 'ops': ops, 'reconnection': False, 'active': True}, tags
+
+
+def exec_plain(case):
+    """execute a history on the real client without any oracle -> records"""
+    w = W.ClientWorld(case['mode'], case['registry'], reconnection=case.get('reconnection', False))
+    recs = []
+    try:
+        run_ops(w, case['ops'], lambda op, rec: recs.append(rec))
+    finally:
+        w.close()
+    return recs
+
+
+def parity_diff(case):
+    """the same history on Client and AsyncClient -> None | (op index, threaded, asyncio)"""
+    out = {}
+    for mode in ('threading', 'asyncio'):
+        try:
+            recs = exec_plain(dict(case, mode=mode))
+            out[mode] = [(canon_impl(r), canon_snap_impl(r['snap'])) for r in recs]
+        except Exception as ex:   # noqa
+            out[mode] = [([['harness', 'execution stopped: %r' % (ex,)]], {})]
+    a, b = out['threading'], out['asyncio']
+    for j in range(max(len(a), len(b))):
+        x = a[j] if j < len(a) else None
+        y = b[j] if j < len(b) else None
+        if x != y:
+            return (j, x, y)
+    return None
+
+
+def shrink_active(case, budget=80):
+    """smallest history / least active registry on which the two families still differ"""
+    import copy as _copy
+    cur = _copy.deepcopy(case)
+    d = parity_diff(cur)
+    if d is None:
+        return case
+    cur['ops'] = cur['ops'][:d[0] + 1]
+    changed = True
+    while changed and budget > 0:
+        changed = False
+        for i in range(len(cur['ops']) - 1, -1, -1):
+            cand = dict(cur, ops=cur['ops'][:i] + cur['ops'][i + 1:])
+            budget -= 1
+            if cand['ops'] and parity_diff(cand) is not None:
+                cur = cand
+                changed = True
+                break
+            if budget <= 0:
+                break
+        if changed:
+            continue
+        hs = [h for h in cur['registry']['fns']] + [m for c in cur['registry']['classes'] for m in c['methods']]
+        for h in hs:
+            if h.get('act') is None:
+                continue
+            saved = h['act']
+            h['act'] = None
+            budget -= 1
+            if parity_diff(cur) is not None:
+                changed = True
+                break
+            h['act'] = saved
+            if budget <= 0:
+                break
+    return cur
+
+
 def model_lines(case):
     return [registry_cfg_line(case['registry'], case.get('reconnection', False))] + [op2w(op) for op in case['ops']]
 
@@ -1433,8 +1628,11 @@ def compare(case, recs, answers, upto=None):
 
 
 def case_json(case):
-    return {'mode': case['mode'], 'registry': enc(case['registry']), 'ops': enc(case['ops']),
-            'reconnection': bool(case.get('reconnection', False))}
+    j = {'mode': case['mode'], 'registry': enc(case['registry']), 'ops': enc(case['ops']),
+         'reconnection': bool(case.get('reconnection', False))}
+    if case.get('active'):
+        j['active'] = True
+    return j
 
 
 def case_from_json(j):
@@ -1453,7 +1651,10 @@ def case_from_json(j):
             op['reacts'] = [tuple(e) for e in op['reacts']]
         elif op['op'] == 'ev':
             op['e'] = tuple(op['e'])
-    return {'mode': j['mode'], 'registry': reg, 'ops': ops, 'reconnection': bool(j.get('reconnection', False))}
+    case = {'mode': j['mode'], 'registry': reg, 'ops': ops, 'reconnection': bool(j.get('reconnection', False))}
+    if j.get('active'):
+        case['active'] = True
+    return case
 
 
 def skeleton(case):
